@@ -1,12 +1,12 @@
 """C02 -- responses and exceptions reach the caller exactly as the service produced them."""
-from e2e import E2E, canon_req
+from e2e import E2E, canon_req, st1_obs, expected_result, result_ok
 from vlib import Case
 import mb, cligen
 
 
 class PROP(E2E):
     id = "C02"
-    rule = ("end-to-end through the real client and the real TCP / RTU-over-TCP servers: every response variant (payload lengths empty..maximal, "
+    rule = ("end-to-end through the real client and the real TCP / RTU-over-TCP / serial RTU (pty) servers, stage by stage under re-chunking and directly over loopback sockets and a pty: every response variant (payload lengths empty..maximal, "
             "bit patterns around byte boundaries), all 256 exception code values (ExceptionCode::new(c) and raw Custom(c)), for typed and raw custom "
             "requests, random chunkings in both directions and all compositions of short frames.  Oracle: the server writes exactly the spec "
             "encoding under the request's header; the client returns the value padded to whole bytes / the same numeric exception code; typed bit "
@@ -65,6 +65,15 @@ class PROP(E2E):
         st = m.get("stage", 0)
         if "PANIC" in (c.impl or ""):
             return "panic"
+        if st == "direct":
+            obs = self.direct_obs(c)
+            if len(obs) != len(m["ops"]):
+                return "end-to-end run: %s" % (c.impl or "")[:100]
+            for (res, seen), op in zip(obs, m["ops"]):
+                want = expected_result(mb.parse_req(op["req"]), op["svc"], op["typed"])
+                if not result_ok(res, want):
+                    return "real client <-> real %s server: service produced %s for %s; the caller got %s, want %s" % (m["flavour"], op["svc"][:50], op["req"][:40], res[:70], str(want)[:70])
+            return None
         req = mb.parse_req(m["req"])
         svc = m["svc"]
         if st == 1:
@@ -75,35 +84,15 @@ class PROP(E2E):
             else:
                 pdu = bytes([(mb.req_fc(req) + 0x80) & 0xFF, int(svc[2:])])
             want = cligen.frame(m["proto"], hdr_tid, m["slave"], pdu).hex()
-            ws = [t[2:] for t in (c.impl or "").split(",") if t.startswith("W:")]
+            _calls, ws = st1_obs(c)
             if ws != [want]:
                 return "server wrote %s for service reply %s; spec frame is %s" % (ws[:2], svc[:60], want[:80])
             return None
         if st == 2:
             res, _ = cligen.res_and_w(cligen.split_results(c.impl)[-1])
-            if svc.startswith("r="):
-                rsp = mb.parse_rsp(svc[2:])
-                if m["typed"]:
-                    k = req[0]
-                    if k in ("RC", "RDI"):
-                        if len(rsp[1]) >= req[2]:
-                            want = "B:" + mb.bits(mb.pad8(rsp[1])[:req[2]])
-                        else:
-                            return None     # fewer bits than requested: C20's business
-                    elif k in ("RIR", "RHR", "RWMR"):
-                        if len(rsp[1]) != req[2]:
-                            return None
-                        want = "W:" + mb.words(rsp[1])
-                    else:
-                        return None if (res == "U" or res.startswith("T:InvalidData")) else "typed write result %s" % res[:60]
-                else:
-                    if mb.rsp_fc(rsp) != mb.req_fc(req):
-                        return None         # the service did not answer *that* request (C06's business)
-                    want = "OK:" + mb.show_rsp(mb.pad_rsp(rsp))
-            else:
-                want = "EX:%d" % int(svc[2:])
-            return None if res == want else "service produced %s for %s; the caller got %s, want %s" % (svc[:50], m["req"][:40], res[:70], want[:70])
+            want = expected_result(req, svc, m["typed"])
+            return None if result_ok(res, want) else "service produced %s for %s; the caller got %s, want %s" % (svc[:50], m["req"][:40], res[:70], str(want)[:70])
         return None
 
     def nontrivial(self, c):
-        return c.meta.get("stage", 0) >= 1
+        return c.meta.get("stage", 0) in (1, 2, "direct")
